@@ -184,6 +184,22 @@ def builtin_fn(ex, st, nm, e, cx, k):
         return ex.ev(st, args[0], cx, f)
     if nm == 'print':
         return k(st, NONE_SV)
+    if nm in ('all', 'any') and len(args) == 1:
+        def fall(st, v):
+            t = v.ty
+            if t.kind == 'opt' and T.is_reflike(t.args[0]):
+                v = SV(t.args[0], v.z)
+                t = v.ty
+            if t.kind != 'list' or t.args[0].kind != 'bool':
+                raise VCError(f'{nm}() of {t!r} outside subset')
+            n_, at_ = ex.seq_view(st, v)
+            j_ = z3.Int(f'j!{nm}')
+            if nm == 'all':
+                return k(st, SV(BOOL, z3.ForAll([j_], z3.Implies(z3.And(j_ >= 0, j_ < n_), at_(j_)), patterns=[at_(j_)])))
+            return k(st, SV(BOOL, z3.Exists([j_], z3.And(j_ >= 0, j_ < n_, at_(j_)))))
+        return ex.ev(st, args[0], cx, fall)
+    if nm == 'tuple' and len(args) == 1:
+        return ex.ev(st, args[0], cx, lambda s, v: k(s, v))      # only ever consumed by str.startswith
     if nm == 'int.from_bytes':
         def f(st, vs):
             b, order = vs[0], vs[1]
@@ -362,6 +378,10 @@ def builtin_method(ex, st, obj, mname, args, kwargs, cx, node, k):
             key = ex.coerce(args[0], kt)
             present = z3.Select(ex.dict_dom(st, obj), key.z)
             val = SV(vt, z3.Select(ex.dict_val(st, obj), key.z))
+            if not cx.spec:
+                facts = ex.type_facts(val)       # the values stored in a dict[K, C] are objects of class C (never None)
+                if facts:
+                    st = st.assume(z3.Implies(present, z3.And(facts)))
             dflt = args[1] if len(args) > 1 else NONE_SV
             if dflt.ty.kind == 'none':
                 rt = T.opt(vt)
@@ -387,6 +407,13 @@ def builtin_method(ex, st, obj, mname, args, kwargs, cx, node, k):
     # ---- str ------------------------------------------------------------------------------
     if t.kind == 'str':
         if mname == 'startswith':
+            if args[0].ty.kind == 'list':
+                # a tuple / list of alternatives built from a literal: concrete length required
+                n_ = z3.simplify(ex.list_len(st, args[0]))
+                if not z3.is_int_value(n_):
+                    raise VCError('startswith(tuple) with a tuple of unknown length')
+                alts = [ex.list_at(st, args[0], I(j_)) for j_ in range(n_.as_long())]
+                return k(st, SV(BOOL, z3.Or([z3.PrefixOf(a_, obj.z) for a_ in alts])))
             return k(st, SV(BOOL, z3.PrefixOf(args[0].z, obj.z)))
         if mname == 'endswith':
             return k(st, SV(BOOL, z3.SuffixOf(args[0].z, obj.z)))
